@@ -423,6 +423,10 @@ class Gen:
             case["splitmode"] = [rng.randint(0, 2) for _ in case["splits"]]
         else:
             case["splitmode"] = []
+        if self.wild and rng.random() < 0.5:
+            total = sum(len(b) for b in serialise(case["prog"], case["trail"], case["style"], case["splits"], case["splitmode"]))
+            if total > 2:
+                case["bytecuts"] = [rng.randint(1, total - 1) for _ in range(rng.choice([1, 1, 2]))]
         return case
 
 
@@ -502,6 +506,25 @@ def serialise(prog: list, trail: list, style: int, splits: List[int], modes: Lis
     return streams
 
 
+def byte_streams(case: dict) -> List[bytes]:
+    """The Contents array as written to the PDF: the token-boundary split, then (wild cases) extra cuts at
+    arbitrary byte offsets - also in the middle of a token: pdfminer's scanner survives a stream boundary."""
+    streams = serialise(case["prog"], case.get("trail", []), case.get("style", 0), case.get("splits", []),
+                        case.get("splitmode", []))
+    for cut in case.get("bytecuts", []):
+        out, done = [], False
+        for b in streams:
+            if not done and 0 < cut < len(b):
+                out += [b[:cut], b[cut:]]
+                done = True
+            else:
+                out.append(b)
+                if not done:
+                    cut -= len(b)
+        streams = out
+    return streams
+
+
 # ------------------------------------------------------------------------------------------ implementation adapter
 
 def page_ctm(mediabox, rotate):
@@ -565,8 +588,7 @@ def build_pdf(case: dict) -> bytes:
             d["Resources"] = res_obj(fm["res"])
         data = serialise(fm["prog"], [], case.get("style", 0), [], [])[0]
         objs[40 + i] = W.Stream(d, data)
-    streams = serialise(case["prog"], case.get("trail", []), case.get("style", 0), case.get("splits", []),
-                        case.get("splitmode", []))
+    streams = byte_streams(case)
     page_extra = {"Rotate": case["rotate"]} if case.get("rotate") else {}
     return W.simple_doc([list(streams)], resources=res_obj(case["res"]), mediabox=tuple(case["mediabox"]),
                         extra_objs=objs, page_extra=page_extra)
@@ -952,8 +974,12 @@ def enc_case(case: dict, mode: str) -> str:
         m = " ".join(fs(F(x)) for x in fm["matrix"]) if fm["matrix"] is not None else "nomatrix"
         parts.append(f"form {m} ; {enc_res(fm['res'])} ; {enc_prog(fm['prog'])}")
     parts.append(f"page {enc_res(case['res'])}")
-    for s in split_token_streams(case):
-        parts.append("stream " + s)
+    if mode == "modelb":
+        for b in byte_streams(case):
+            parts.append("bstream " + (b.hex() or "-"))
+    else:
+        for s in split_token_streams(case):
+            parts.append("stream " + s)
     return " | ".join(parts)
 
 
@@ -1122,9 +1148,11 @@ def flush(ctx: C.Ctx, batch: list) -> None:
         for case, _, _, _ in batch:
             lines.append(enc_case(case, "model"))
             lines.append(enc_case(case, "spec"))
+            lines.append(enc_case(case, "modelb"))
         rep = ctx.driver.ask(lines)
-        model_out = [parse_reply(r) for r in rep[0::2]]
-        spec_out = [parse_reply(r) for r in rep[1::2]]
+        model_out = [parse_reply(r) for r in rep[0::3]]
+        spec_out = [parse_reply(r) for r in rep[1::3]]
+        modelb_out = [parse_reply(r) for r in rep[2::3]]
     for k, (case, im, wanted, origin) in enumerate(batch):
         psp = py_spec(case)
         lsp = spec_out[k] if spec_out is not None else None
@@ -1138,6 +1166,8 @@ def flush(ctx: C.Ctx, batch: list) -> None:
         for o in feats:
             ctx.branch("op:" + o)
         ctx.branch("streams:%d" % (len(case.get("splits", [])) + 1))
+        if case.get("bytecuts"):
+            ctx.branch("bytecuts")
         ctx.branch("forms:%d" % len(case["forms"]))
         for f in case["fonts"]:
             ctx.branch("font:" + f.get("kind", "simple"))
@@ -1165,6 +1195,19 @@ def flush(ctx: C.Ctx, batch: list) -> None:
                     ctx.disagree("c05.model", {"case": case, "glyph": i, "field": field},
                                  show_glyph(im[1][i]) if i < len(im[1]) else None,
                                  show_glyph(mo[1][i]) if i < len(mo[1]) else None)
+            # (a') the same through the byte-level front end: lexer model + assembler on the very bytes pdfminer reads
+            mb = modelb_out[k]
+            ctx.branch("bytes:" + mb[0])
+            if mb[0] == "ok" and im[0] == "ok":
+                d = seq_diff(im[1], mb[1])
+                if d is not None:
+                    ctx.disagree("c05.model-bytes", {"case": case, "glyph": d[0], "field": d[1]},
+                                 show_glyph(im[1][d[0]]) if d[0] < len(im[1]) else None,
+                                 show_glyph(mb[1][d[0]]) if d[0] < len(mb[1]) else None)
+            elif mb[0] == "ok" and im[0] == "exc":
+                ctx.disagree("c05.model-bytes", {"case": case}, im[1], "glyphs=%d" % len(mb[1]))
+            elif mb[0] == "err" and "fuel" in mb[1] and im[0] == "ok":
+                ctx.disagree("c05.model-bytes", {"case": case}, "glyphs=%d" % nglyph, mb[1])
         # (b) property: implementation == spec on the domain
         sp = lsp if (lsp is not None and lsp[0] != "err") else psp
         if sp[0] != "ok":
